@@ -47,7 +47,9 @@ func c01(c *Ctx) {
 	for k := 0; k < 40; k++ {
 		progs = append(progs, genCleanupProg(crng))
 	}
-	emitPipelineCases(c, progs, []pipeCheck{chkDiff, chkLive, chkAlloc, chkSim, chkDisc, chkBind, chkCleanup, chkCFG}, 20, func(p *Prog, ob *Observed) bool {
+	// a function that cannot be allocated makes the whole file fail, wherever it stands among functions that can
+	multiFunctionFiles(c.Out, progs, "alloc", 40)
+	emitPipelineCases(c, progs, []pipeCheck{chkDiff, chkLive, chkAlloc, chkSim, chkDisc, chkBind, chkCleanup, chkCFG, chkZext}, 20, func(p *Prog, ob *Observed) bool {
 		return len(ob.Alloc) >= 2
 	})
 	c.Out.Plan.Rule = "corpus (pressure 15/16 GP, 5 high-byte, 8 opmask, implicit MULQ, masked self-compare) + random programs with 1..24 virtual registers of all widths/classes, author-chosen physical registers, implicit operands, synthetic multi-output instructions, branches and loops; non-trivial = at least two virtual registers were allocated; distinct by program text"
@@ -107,6 +109,7 @@ func c15(c *Ctx) {
 	multiFunctionFiles(c.Out, progs, "bp", 60)
 	bpPrintedFrames(c.Out, progs, 200)
 	bpListedFile(c.Out)
+	bpMainFlow(c.Out)
 	frameHistories(c, map[bool]int{false: 150, true: 3000}[c.Thorough()], 1501, true, "Frames.v") // base-pointer writers with stack locals
 	emitPipelineCases(c, progs, []pipeCheck{chkDiff, chkBP, chkBind}, 20, func(p *Prog, ob *Observed) bool {
 		return p.Tags["explicit-bp"] || p.Tags["pressure15"]
